@@ -28,10 +28,11 @@ pub fn try_get_amount_delta_a(
     let (sqrt_price_lower, sqrt_price_upper) =
         order_prices(sqrt_price_1.into(), sqrt_price_2.into());
     let sqrt_price_diff = sqrt_price_upper - sqrt_price_lower;
+    // checked_shl only rejects a shift amount >= 256; the value itself can lose its high bits
     let numerator: U256 = <U256>::from(liquidity)
         .checked_mul(sqrt_price_diff.into())
         .ok_or(ARITHMETIC_OVERFLOW)?
-        .checked_shl(64)
+        .checked_mul(<U256>::from(1u128 << 64))
         .ok_or(ARITHMETIC_OVERFLOW)?;
 
     let denominator: U256 = <U256>::from(sqrt_price_lower)
@@ -109,10 +110,11 @@ pub fn try_get_next_sqrt_price_from_a(
     let p = <U256>::from(current_sqrt_price)
         .checked_mul(amount.into())
         .ok_or(ARITHMETIC_OVERFLOW)?;
+    // checked_shl only rejects a shift amount >= 256; the value itself can lose its high bits
     let numerator = <U256>::from(current_liquidity)
         .checked_mul(current_sqrt_price.into())
         .ok_or(ARITHMETIC_OVERFLOW)?
-        .checked_shl(64)
+        .checked_mul(<U256>::from(1u128 << 64))
         .ok_or(ARITHMETIC_OVERFLOW)?;
 
     let current_liquidity_shifted = <U256>::from(current_liquidity)
